@@ -245,6 +245,11 @@ def main():
     ] + list(getattr(mod, "TRUSTED", []))
     cov["checker_cmd"] = "cd lean && lake build %s && lake env lean Plonk/Audit/%s.lean" % (" ".join(mod.LEAN_TARGETS), prop)
 
+    # build stages (translators, lake, audit, cargo) are serialised across concurrently running checks: they share
+    # lean/.lake, Generated*.lean and the harness target directory
+    import fcntl
+    lock_f = open(os.path.join(VERIF, "work", ".build.lock"), "w")
+    fcntl.flock(lock_f, fcntl.LOCK_EX)
     broken = None   # (stage, text)
     rc, out = stage_extract(ctx, widgets="Plonk.Props.WidgetTie" in mod.LEAN_TARGETS)
     if rc != 0:
@@ -275,6 +280,8 @@ def main():
         if rc2 != 0 and not cargo_broken:
             cargo_broken = "\n".join([l for l in out2.split("\n") if l.startswith("error")][:10])
 
+    fcntl.flock(lock_f, fcntl.LOCK_UN)
+    lock_f.close()
     stats = {}
     if cargo_broken:
         ctx.violation("harness-build", {"stage": "cargo build", "errors": cargo_broken,
